@@ -19,15 +19,15 @@ Ltac simp := cbn -[to_key check_put kv_agree asort apply_kv].
 Ltac brk := repeat (simp; brk1).
 
 Ltac unfold_pg :=
-  lazy beta iota zeta delta [pg_step pg_close pg_put pg_get pg_get_default pg_start pg_stop pg_stop_ pg_begin_if pg_abort
-    pg_stop_single srv_begin srv_exec srv_query srv_next srv_scan srv_commit srv_rollback srv_close
+  lazy beta iota zeta delta [pg_step pg_close pg_put pg_get pg_get_default pg_start pg_stop pg_stop_ pg_begin_if pg_abort pg_dump dump_commit eff
+    pg_stop_single srv_begin srv_exec srv_query srv_dquery srv_next srv_scan srv_commit srv_rollback srv_close
     tick emit set_open set_comm set_srv clear_log res_unit res_val
-    fst snd p_tx p_multi p_srv s_comm s_open s_next s_closed s_log s_orc negb].
+    fst snd p_tx p_multi p_lang p_srv s_comm s_open s_next s_closed s_log s_orc negb].
 Ltac unfold_pg_open :=
-  lazy beta iota zeta delta [pg_step pg_close pg_put pg_get pg_get_default pg_start pg_stop pg_stop_ pg_begin_if pg_abort
-    pg_stop_single srv_begin srv_exec srv_query srv_next srv_scan srv_commit srv_rollback srv_close
+  lazy beta iota zeta delta [pg_step pg_close pg_put pg_get pg_get_default pg_start pg_stop pg_stop_ pg_begin_if pg_abort pg_dump dump_commit eff
+    pg_stop_single srv_begin srv_exec srv_query srv_dquery srv_next srv_scan srv_commit srv_rollback srv_close
     tick emit set_open set_comm set_srv clear_log res_unit res_val
-    fst snd p_tx p_multi p_srv s_comm s_open s_next s_closed s_log s_orc negb olookup oremove oset].
+    fst snd p_tx p_multi p_lang p_srv s_comm s_open s_next s_closed s_log s_orc negb olookup oremove oset].
 
 (* ---- association lists ---- *)
 Definition kv_equiv (a b : list (bytes * bytes)) : Prop := forall k, alookup k a = alookup k b.
@@ -85,8 +85,45 @@ Proof. intros H. apply kv_agree_equiv. intros k. rewrite alookup_asort. symmetry
 Lemma to_key_no_panic c k n : to_key c k <> Panic n.
 Proof. unfold to_key. destruct (c_pfx c =? DATATYPE_UNKNOWN); discriminate. Qed.
 
+Lemma to_key_err_pfx c l k e : to_key (set_lang c l) k = Err e -> c_pfx c =? DATATYPE_UNKNOWN = true.
+Proof. unfold to_key. cbn [c_pfx set_lang]. destruct (c_pfx c =? DATATYPE_UNKNOWN); [reflexivity|discriminate]. Qed.
+
+(* the iteration of a dump: never a call on a finished transaction; consumes nothing of an exhausted oracle *)
+Lemma iter_no_done c id base : forall rest orc evs orc' l,
+  dump_iter c id base rest orc = (evs, orc', l) -> existsb (fun e => ev_flag e =? 3) (rev evs) = false.
+Proof.
+  induction rest as [|[kk vv] rest IH]; intros orc evs orc' l; cbn [dump_iter].
+  - intros H. inversion H. cbn. destruct (hd false orc); reflexivity.
+  - destruct (hd false orc); [intros H; inversion H; reflexivity|].
+    destruct (hd false (tl orc)); [intros H; inversion H; reflexivity|].
+    destruct (negb (is_prefix base kk)); [intros H; inversion H; reflexivity|].
+    destruct (decode_key c kk); [|intros H; inversion H; reflexivity].
+    destruct (dump_iter c id base rest (tl (tl orc))) as [[e o'] l'] eqn:E. intros H. inversion H. subst.
+    rewrite rev_app_distr. cbn. exact (IH _ _ _ _ E).
+Qed.
+
+Lemma iter_orc_nil c id base : forall rest evs orc' l, dump_iter c id base rest [] = (evs, orc', l) -> orc' = [].
+Proof.
+  induction rest as [|[kk vv] rest IH]; intros evs orc' l; cbn [dump_iter hd tl].
+  - intros H. inversion H. reflexivity.
+  - destruct (negb (is_prefix base kk)); [intros H; inversion H; reflexivity|].
+    destruct (decode_key c kk); [|intros H; inversion H; reflexivity].
+    destruct (dump_iter c id base rest []) as [[e o'] l'] eqn:E. intros H. inversion H. subst. exact (IH _ _ _ eq_refl).
+Qed.
+
+Ltac iterfacts :=
+  repeat match goal with
+  | D : dump_iter _ _ _ _ _ = (?e, _, _) |- _ =>
+    lazymatch goal with
+    | _ : existsb _ (rev e) = false |- _ => fail
+    | _ => pose proof (iter_no_done _ _ _ _ _ _ _ _ D)
+    end
+  end.
+
 Ltac nopanic :=
   match goal with H : to_key _ _ = Panic _ |- _ => exfalso; revert H; apply to_key_no_panic end.
+Ltac pfxerr :=
+  match goal with H : to_key (set_lang _ _) _ = Err _ |- _ => pose proof (to_key_err_pfx _ _ _ _ H) end.
 
 Definition shape (st : pg) : Prop :=
   (p_tx st = None /\ s_open (p_srv st) = []) \/
@@ -94,7 +131,7 @@ Definition shape (st : pg) : Prop :=
 
 
 Definition Inv (st : pg) (m : mstate) : Prop :=
-  m_started m = p_multi st /\ kv_equiv (s_comm (p_srv st)) (m_abs m) /\
+  m_started m = p_multi st /\ m_lang m = p_lang st /\ kv_equiv (s_comm (p_srv st)) (m_abs m) /\
   match m_mode m with
   | MSingle => p_tx st = None /\ s_open (p_srv st) = [] /\ s_closed (p_srv st) = false
   | MExpl false ov => exists t, p_tx st = Some t /\ s_open (p_srv st) = [(t, ov)] /\ p_multi st = true /\ s_closed (p_srv st) = false
@@ -104,7 +141,8 @@ Definition Inv (st : pg) (m : mstate) : Prop :=
 
 Definition guard_post (c : pcfg) (m : mstate) (o : pop) (sr : pg * pres) : Prop :=
   let ms := mon_step c m o (obs_of (fst sr) (snd sr)) in
-  k_hit (snd ms) = true \/ (Inv (fst sr) (fst ms) /\ k_hyg (snd ms) = true /\ k_rec (snd ms) = true).
+  k_hit (snd ms) = true \/
+  (Inv (fst sr) (fst ms) /\ k_hyg (snd ms) = true /\ k_rec (snd ms) = true).
 
 Ltac rw_hyps := repeat match goal with H : ?x = _ |- context [?x] => rewrite H end.
 
@@ -143,14 +181,16 @@ Ltac fin :=
   right; repeat (first [split | apply andb_true_intro]); fin_atom.
 
 Ltac open_post P :=
-  subst P; unfold guard_post, mon_step, mon_next, get_check, hyg_check, hit_now, put_key, obs_of, end_expl, doom, Inv, shape;
-  simp; rw_hyps; simp.
+  subst P; unfold guard_post, mon_step, mon_next, get_check, hyg_check, hit_now, lang_next, put_key, obs_of,
+    end_expl, doom, Inv, shape, has_done;
+  iterfacts;
+  simp; rewrite ?rev_app_distr; rw_hyps; simp.
 
 Lemma guard_step c st m o : Inv st m -> m_hit m = false -> guard_post c m o (pg_step c st o).
 Proof.
-  destruct st as [tx multi [comm open next closed log orc]].
-  destruct m as [mode a started hit].
-  unfold Inv, shape. cbn. intros (-> & He & Hm) ->.
+  destruct st as [tx multi lang [comm open next closed log orc]].
+  destruct m as [mode a started hit mlang].
+  unfold Inv, shape. cbn. intros (-> & -> & He & Hm) ->.
   remember (guard_post c) as P eqn:HP.
   destruct mode as [|[|] ov|].
   - destruct Hm as (-> & -> & ->). destruct o; unfold_pg_open.
@@ -166,16 +206,18 @@ Qed.
 (* ---- 1. a fault inside an operation is reported ------------------------------------------- *)
 Definition fault_post (c : pcfg) (o : pop) (sr : pg * pres) : Prop :=
   o = PAbort \/
+  dump_late_fault o (rev (s_log (p_srv (fst sr)))) = true \/
   has_fault (rev (s_log (p_srv (fst sr)))) = false \/
   is_perr (snd sr) = true.
 
 (* any state at all: no invariant is needed for this part *)
 Lemma step_fault_reported c st o : fault_post c o (pg_step c st o).
 Proof.
-  destruct st as [tx multi [comm open next closed log orc]].
+  destruct st as [tx multi lang [comm open next closed log orc]].
   remember (fault_post c) as P eqn:HP.
   destruct o; unfold_pg.
-  all: brk; subst P; unfold fault_post; cbn; auto.
+  all: brk; subst P; unfold fault_post, dump_late_fault, has_fault; cbn; rewrite ?rev_app_distr; cbn; auto.
+  all: match goal with |- context [existsb ?f ?l] => destruct (existsb f l) end; auto.
 Qed.
 
 (* ---- 2. at most one transaction, no nil dereference, no call on a finished transaction ------ *)
@@ -184,13 +226,14 @@ Definition shape_post (sr : pg * pres) : Prop :=
 
 Lemma step_shape c st o : shape st -> shape_post (pg_step c st o).
 Proof.
-  destruct st as [tx multi [comm open next closed log orc]].
+  destruct st as [tx multi lang [comm open next closed log orc]].
   unfold shape. cbn. intros [[-> ->]|(t & p & -> & ->)].
   all: remember shape_post as P eqn:HP.
   all: destruct o; unfold_pg_open.
-  all: brk; try nopanic; subst P; unfold shape_post, shape; cbn.
+  all: brk; try nopanic; iterfacts; subst P; unfold shape_post, shape, has_done; cbn;
+       rewrite ?rev_app_distr; cbn.
   all: (split; [first [left; split; reflexivity | right; do 2 eexists; split; reflexivity]
-               | split; [discriminate | reflexivity]]).
+               | split; [discriminate | first [reflexivity | assumption]]]).
 Qed.
 
 (* ---- histories ------------------------------------------------------------------------------ *)
@@ -219,19 +262,20 @@ Proof.
   rewrite Hm. cbn [orb andb]. apply IH. unfold mon_step. cbn [fst m_hit]. unfold hit_now. rewrite Hm. reflexivity.
 Qed.
 
-Theorem fault_all c : forall ops st m,
-  c13_fault (mon_run c m ops (pg_trace c st ops)) = true.
+Theorem fault_guarded_all c : forall ops st m,
+  c13_fault_guarded (mon_run c m ops (pg_trace c st ops)) = true.
 Proof.
-  unfold c13_fault.
+  unfold c13_fault_guarded.
   induction ops as [|o ops IH]; intros st m; [reflexivity|].
   rewrite pg_trace_cons, mon_run_cons. cbn [forallb]. rewrite IH, andb_true_r.
-  unfold mon_step. cbn [snd k_fault]. unfold obs_of, fault_check. cbn [o_evs o_res].
+  unfold mon_step. cbn [snd k_dsw k_fault]. unfold obs_of, fault_check. cbn [o_evs o_res].
   pose proof (step_fault_reported c st o) as H. unfold fault_post in H.
-  destruct H as [->|[H|H]].
-  - reflexivity.
-  - rewrite H. destruct o; reflexivity.
-  - rewrite H. destruct o; try reflexivity.
-    all: match goal with |- context [if ?b then _ else _] => destruct b end; reflexivity.
+  destruct H as [->|[H|[H|H]]].
+  - apply orb_true_r.
+  - rewrite H. reflexivity.
+  - rewrite H. destruct o; apply orb_true_r.
+  - rewrite H. destruct o; try apply orb_true_r.
+    all: match goal with |- context [if ?b then _ else _] => destruct b end; apply orb_true_r.
 Qed.
 
 Lemma guarded_all c : forall ops st m,
@@ -241,7 +285,8 @@ Proof.
   induction ops as [|o ops IH]; intros st m HI Hh; [reflexivity|].
   rewrite pg_trace_cons, mon_run_cons. cbn [forallb].
   pose proof (guard_step c st m o HI Hh) as G. unfold guard_post in G. cbn zeta in G.
-  destruct (k_hit (snd (mon_step c m o (obs_of (fst (pg_step c st o)) (snd (pg_step c st o)))))) eqn:Hk.
+  set (ms := mon_step c m o (obs_of (fst (pg_step c st o)) (snd (pg_step c st o)))) in *.
+  destruct (k_hit (snd ms)) eqn:Hk.
   - cbn [orb andb]. eapply forallb_impl; [|apply hit_sticky].
     + intros x Hx. rewrite Hx. reflexivity.
     + exact Hk.
@@ -249,27 +294,29 @@ Proof.
     apply IH; [exact HI'|exact Hk].
 Qed.
 
-Lemma inv_init init orc : Inv (new_pg init orc) (m_init init).
+Lemma inv_init c init orc : Inv (new_pg c init orc) (m_init c init).
 Proof. unfold Inv. cbn. repeat split. Qed.
 
 Theorem hyg_guarded_all c init ops orc : c13_hyg_guarded (pg_checks c init ops orc) = true.
 Proof.
   unfold c13_hyg_guarded, pg_checks, pg_run.
   eapply forallb_impl; [|apply guarded_all; [apply inv_init|reflexivity]].
-  intros k H. cbn beta in H. destruct (k_hit k); [reflexivity|]. cbn in *. apply andb_true_iff in H. apply H.
+  intros k H. cbn beta in H. destruct (k_hit k); [reflexivity|].
+  cbn in *. apply andb_true_iff in H. apply H.
 Qed.
 
 Theorem rec_guarded_all c init ops orc : c13_rec_guarded (pg_checks c init ops orc) = true.
 Proof.
   unfold c13_rec_guarded, pg_checks, pg_run.
   eapply forallb_impl; [|apply guarded_all; [apply inv_init|reflexivity]].
-  intros k H. cbn beta in H. destruct (k_hit k); [reflexivity|]. cbn in *. apply andb_true_iff in H. apply H.
+  intros k H. cbn beta in H. destruct (k_hit k); [reflexivity|].
+  cbn in *. apply andb_true_iff in H. apply H.
 Qed.
 
-Theorem fault_run c init ops orc : c13_fault (pg_checks c init ops orc) = true.
-Proof. apply fault_all. Qed.
+Theorem fault_guarded_run c init ops orc : c13_fault_guarded (pg_checks c init ops orc) = true.
+Proof. apply fault_guarded_all. Qed.
 
-(* unconditional: whatever the history (sticky or not) *)
+(* unconditional: whatever the key context and the history (sticky or not) *)
 Definition sane_obs (ob : pobs) : bool :=
   (o_open ob <=? 1) && negb (pres_eqb (o_res ob) PPanic) && negb (has_done (o_evs ob)).
 
@@ -287,107 +334,99 @@ Theorem sane_run c init ops orc : forallb sane_obs (pg_run c init ops orc) = tru
 Proof. apply sane_all. left. split; reflexivity. Qed.
 
 (* ---- 3. explicit transactions without faults -------------------------------------------------- *)
-(* the writes of a transaction body, by storage key *)
-Definition body_writes (c : pcfg) (body : list pop) (ov : list (bytes * bytes)) : list (bytes * bytes) :=
-  fold_left (fun ov o => match o with
-                         | PPut k v => match put_key c k with Some ak => aset ak v ov | None => ov end
-                         | _ => ov end) body ov.
+(* the writes of a transaction body, by storage key; a Dump in the body resets the language *)
+Definition bw_step (c : pcfg) (lo : option bytes * list (bytes * bytes)) (o : pop) : option bytes * list (bytes * bytes) :=
+  match o with
+  | PPut k v => (fst lo, match put_key (set_lang c (fst lo)) k with Some ak => aset ak v (snd lo) | None => snd lo end)
+  | PDump _ => (None, snd lo)
+  | _ => lo
+  end.
+Definition body_writes (c : pcfg) (lang : option bytes) (body : list pop) : list (bytes * bytes) :=
+  snd (fold_left (bw_step c) body (lang, [])).
 
-Definition data_op (o : pop) : bool := match o with PPut _ _ | PGet _ => true | _ => false end.
+Definition data_op (o : pop) : bool := match o with PPut _ _ | PGet _ | PDump _ => true | _ => false end.
 
 (* inside an explicit transaction t with overlay ov, no faults left *)
-Definition in_tx (st : pg) (t : N) (ov comm : list (bytes * bytes)) : Prop :=
-  p_tx st = Some t /\ p_multi st = true /\ s_open (p_srv st) = [(t, ov)] /\ s_comm (p_srv st) = comm
-  /\ s_orc (p_srv st) = [].
+Definition in_tx (st : pg) (t : N) (lo : option bytes * list (bytes * bytes)) (comm : list (bytes * bytes)) : Prop :=
+  p_tx st = Some t /\ p_multi st = true /\ p_lang st = fst lo /\ s_open (p_srv st) = [(t, snd lo)]
+  /\ s_comm (p_srv st) = comm /\ s_orc (p_srv st) = [].
 
-Lemma in_tx_step c st t ov comm o :
-  in_tx st t ov comm -> data_op o = true -> is_perr (snd (pg_step c st o)) = false ->
-  in_tx (fst (pg_step c st o)) t (body_writes c [o] ov) comm.
+Lemma in_tx_step c st t lo comm o :
+  in_tx st t lo comm -> data_op o = true -> is_perr (snd (pg_step c st o)) = false ->
+  in_tx (fst (pg_step c st o)) t (bw_step c lo o) comm.
 Proof.
-  destruct st as [tx multi [cm open next closed log orc]].
-  unfold in_tx. cbn. intros (-> & -> & -> & -> & ->) Hd.
-  destruct o; try discriminate; clear Hd; unfold put_key; unfold_pg_open.
-  all: brk; try nopanic; intros; try discriminate; repeat split; reflexivity.
-Qed.
-
-Lemma in_tx_body c t comm : forall body st ov,
-  in_tx st t ov comm -> forallb data_op body = true ->
-  forallb (fun ob => negb (is_perr (o_res ob))) (pg_trace c st body) = true ->
-  in_tx (fst (fold_left (fun sr o => pg_step c (fst sr) o) body (st, POk))) t (body_writes c body ov) comm.
-Proof.
-  induction body as [|o body IH]; intros st ov Hin Hd Hok; [exact Hin|].
-  cbn [forallb] in Hd. apply andb_true_iff in Hd. destruct Hd as [Hd1 Hd2].
-  rewrite pg_trace_cons in Hok. cbn [forallb] in Hok. apply andb_true_iff in Hok. destruct Hok as [Ho1 Ho2].
-  unfold obs_of in Ho1. cbn [o_res] in Ho1. apply negb_true_iff in Ho1.
-  cbn [fold_left fst]. 
-  replace (pg_step c st o) with (fst (pg_step c st o), snd (pg_step c st o)) by (destruct (pg_step c st o); reflexivity).
-  assert (Hf : forall r, fst (fold_left (fun sr o0 => pg_step c (fst sr) o0) body (fst (pg_step c st o), r))
-                     = fst (fold_left (fun sr o0 => pg_step c (fst sr) o0) body (fst (pg_step c st o), POk))).
-  { intros r. destruct body; reflexivity. }
-  rewrite Hf. change (body_writes c (o :: body) ov) with (body_writes c body (body_writes c [o] ov)).
-  apply IH; [apply in_tx_step; assumption|assumption|assumption].
+  destruct st as [tx multi lang [cm open next closed log orc]]. destruct lo as [lg ov].
+  unfold in_tx. cbn. intros (-> & -> & -> & -> & -> & ->) Hd.
+  destruct o; try discriminate; clear Hd; unfold bw_step, put_key; cbn [fst snd]; unfold_pg_open.
+  all: brk; try nopanic; intros; try discriminate; repeat split; try reflexivity.
+  all: match goal with D : dump_iter _ _ _ _ [] = _ |- _ => exact (iter_orc_nil _ _ _ _ _ _ _ D) end.
 Qed.
 
 (* the state a history leads to *)
 Definition pg_final (c : pcfg) (st : pg) (ops : list pop) : pg :=
-  fst (fold_left (fun sr o => pg_step c (fst sr) o) ops (st, POk)).
+  fold_left (fun s o => fst (pg_step c s o)) ops st.
+
+Lemma in_tx_body c t comm : forall body st lo,
+  in_tx st t lo comm -> forallb data_op body = true ->
+  forallb (fun ob => negb (is_perr (o_res ob))) (pg_trace c st body) = true ->
+  in_tx (pg_final c st body) t (fold_left (bw_step c) body lo) comm.
+Proof.
+  induction body as [|o body IH]; intros st lo Hin Hd Hok; [exact Hin|].
+  cbn [forallb] in Hd. apply andb_true_iff in Hd. destruct Hd as [Hd1 Hd2].
+  rewrite pg_trace_cons in Hok. cbn [forallb] in Hok. apply andb_true_iff in Hok. destruct Hok as [Ho1 Ho2].
+  unfold obs_of in Ho1. cbn [o_res] in Ho1. apply negb_true_iff in Ho1.
+  unfold pg_final. cbn [fold_left]. apply IH; [apply in_tx_step; assumption|assumption|assumption].
+Qed.
 
 Definition idle (st : pg) : Prop :=
   p_tx st = None /\ s_open (p_srv st) = [] /\ s_closed (p_srv st) = false /\ s_orc (p_srv st) = [].
 
 Lemma start_idle c st : idle st ->
-  snd (pg_step c st PStart) = POk /\ in_tx (fst (pg_step c st PStart)) (s_next (p_srv st)) [] (s_comm (p_srv st)).
+  snd (pg_step c st PStart) = POk
+  /\ in_tx (fst (pg_step c st PStart)) (s_next (p_srv st)) (p_lang st, []) (s_comm (p_srv st)).
 Proof.
-  destruct st as [tx multi [cm open next closed log orc]]. unfold idle, in_tx. cbn.
+  destruct st as [tx multi lang [cm open next closed log orc]]. unfold idle, in_tx. cbn.
   intros (-> & -> & -> & ->). unfold_pg_open. cbn. repeat split.
 Qed.
 
-Lemma stop_in_tx c st t ov comm : in_tx st t ov comm ->
-  snd (pg_step c st PStop) = POk /\ s_comm (p_srv (fst (pg_step c st PStop))) = apply_kv ov comm
+Lemma stop_in_tx c st t lo comm : in_tx st t lo comm ->
+  snd (pg_step c st PStop) = POk /\ s_comm (p_srv (fst (pg_step c st PStop))) = apply_kv (snd lo) comm
   /\ s_open (p_srv (fst (pg_step c st PStop))) = [].
 Proof.
-  destruct st as [tx multi [cm open next closed log orc]]. unfold in_tx. cbn.
-  intros (-> & -> & -> & -> & ->). unfold_pg_open. cbn. rewrite ?N.eqb_refl. cbn. rewrite ?N.eqb_refl. cbn. repeat split.
+  destruct st as [tx multi lang [cm open next closed log orc]]. unfold in_tx. cbn.
+  intros (-> & -> & _ & -> & -> & ->). unfold_pg_open. cbn. rewrite ?N.eqb_refl. cbn. rewrite ?N.eqb_refl. cbn. repeat split.
 Qed.
 
-Lemma abort_in_tx c st t ov comm : in_tx st t ov comm ->
+Lemma abort_in_tx c st t lo comm : in_tx st t lo comm ->
   s_comm (p_srv (fst (pg_step c st PAbort))) = comm /\ s_open (p_srv (fst (pg_step c st PAbort))) = [].
 Proof.
-  destruct st as [tx multi [cm open next closed log orc]]. unfold in_tx. cbn.
-  intros (-> & -> & -> & -> & ->). unfold_pg_open. cbn. rewrite ?N.eqb_refl. cbn. rewrite ?N.eqb_refl. cbn. repeat split.
+  destruct st as [tx multi lang [cm open next closed log orc]]. unfold in_tx. cbn.
+  intros (-> & -> & _ & -> & -> & ->). unfold_pg_open. cbn. rewrite ?N.eqb_refl. cbn. rewrite ?N.eqb_refl. cbn. repeat split.
 Qed.
 
 Lemma pg_final_app c st a b : pg_final c st (a ++ b) = pg_final c (pg_final c st a) b.
-Proof.
-  unfold pg_final. rewrite fold_left_app.
-  destruct (fold_left (fun sr o => pg_step c (fst sr) o) a (st, POk)) as [s r]. cbn [fst].
-  destruct b; reflexivity.
-Qed.
-
-Lemma pg_final_one c st o : pg_final c st [o] = fst (pg_step c st o).
-Proof. reflexivity. Qed.
+Proof. unfold pg_final. apply fold_left_app. Qed.
 
 Lemma pg_trace_app c : forall a st b, pg_trace c st (a ++ b) = pg_trace c st a ++ pg_trace c (pg_final c st a) b.
 Proof.
   induction a as [|o a IH]; intros st b; [reflexivity|].
-  rewrite <- app_comm_cons, !pg_trace_cons, IH. cbn [app]. do 2 f_equal.
-  change (o :: a) with ([o] ++ a). rewrite pg_final_app. reflexivity.
+  rewrite <- app_comm_cons, !pg_trace_cons, IH. reflexivity.
 Qed.
 
 Theorem multi_commit_at_stop_lemma c st body :
   idle st -> forallb data_op body = true ->
   forallb (fun ob => negb (is_perr (o_res ob))) (pg_trace c st (PStart :: body ++ [PStop])) = true ->
   let st' := pg_final c st (PStart :: body ++ [PStop]) in
-  s_comm (p_srv st') = apply_kv (body_writes c body []) (s_comm (p_srv st)) /\ s_open (p_srv st') = [].
+  s_comm (p_srv st') = apply_kv (body_writes c (p_lang st) body) (s_comm (p_srv st)) /\ s_open (p_srv st') = [].
 Proof.
   intros Hi Hd Hok. cbn zeta.
   destruct (start_idle c st Hi) as (_ & Hin).
   change (PStart :: body ++ [PStop]) with ([PStart] ++ body ++ [PStop]) in *.
-  rewrite pg_trace_app, pg_final_one in Hok. rewrite forallb_app in Hok. apply andb_true_iff in Hok.
+  rewrite pg_trace_app in Hok. rewrite forallb_app in Hok. apply andb_true_iff in Hok.
   destruct Hok as [_ Hok]. rewrite pg_trace_app, forallb_app in Hok. apply andb_true_iff in Hok.
-  destruct Hok as [Hok _].
-  pose proof (in_tx_body c _ _ body _ _ Hin Hd Hok) as Hb. fold (pg_final c (fst (pg_step c st PStart)) body) in Hb.
-  rewrite !pg_final_app, !pg_final_one.
+  destruct Hok as [Hok _]. change (pg_final c st [PStart]) with (fst (pg_step c st PStart)) in Hok.
+  pose proof (in_tx_body c _ _ body _ _ Hin Hd Hok) as Hb.
+  rewrite !pg_final_app. change (pg_final c st [PStart]) with (fst (pg_step c st PStart)).
   destruct (stop_in_tx c _ _ _ _ Hb) as (_ & H1 & H2). split; assumption.
 Qed.
 
@@ -400,14 +439,13 @@ Proof.
   intros Hi Hd Hok. cbn zeta.
   destruct (start_idle c st Hi) as (_ & Hin).
   change (PStart :: body ++ [PAbort]) with ([PStart] ++ body ++ [PAbort]) in *.
-  rewrite pg_trace_app, pg_final_one in Hok. rewrite forallb_app in Hok. apply andb_true_iff in Hok.
+  rewrite pg_trace_app in Hok. rewrite forallb_app in Hok. apply andb_true_iff in Hok.
   destruct Hok as [_ Hok]. rewrite pg_trace_app, forallb_app in Hok. apply andb_true_iff in Hok.
-  destruct Hok as [Hok _].
-  pose proof (in_tx_body c _ _ body _ _ Hin Hd Hok) as Hb. fold (pg_final c (fst (pg_step c st PStart)) body) in Hb.
-  rewrite !pg_final_app, !pg_final_one.
+  destruct Hok as [Hok _]. change (pg_final c st [PStart]) with (fst (pg_step c st PStart)) in Hok.
+  pose proof (in_tx_body c _ _ body _ _ Hin Hd Hok) as Hb.
+  rewrite !pg_final_app. change (pg_final c st [PStart]) with (fst (pg_step c st PStart)).
   exact (abort_in_tx c _ _ _ _ Hb).
 Qed.
-
 (* ---- 4. witnesses (the faithful model violates the property at full strength) ------------------ *)
 Definition wit_user : pcfg := mkCfg DATATYPE_USERDATA safe_lock (s2b "s") None.
 Definition wit_trans : pcfg := mkCfg DATATYPE_TEMPLATE 11 (s2b "s") (Some (s2b "nor")).
@@ -438,4 +476,44 @@ Lemma trfetch_reported_lemma :
   c13_full (pg_checks c init ops orc) = true
   /\ map o_res (pg_run c init ops orc) = [POk; PErr EFault; PVal (s2b "T")]
   /\ map o_open (pg_run c init ops orc) = [0; 0; 0].
+Proof. vm_compute. repeat split. Qed.
+
+(* regression (repaired by f3dc6ab; was finding K-C13-dumpleak): with the prefix UNKNOWN Dump begins a
+   transaction and fails in ToKey; it used to return with the transaction open (OpenTx 1; 2; 1), now
+   it rolls it back *)
+Lemma dumpleak_fixed_lemma :
+  let c := mkCfg DATATYPE_UNKNOWN safe_lock (s2b "s") None in
+  let ops := [PDump (s2b "a"); PStart; PStop] in
+  c13_full (pg_checks c [] ops []) = true
+  /\ map o_res (pg_run c [] ops []) = [PErr EGen; POk; POk]
+  /\ map o_open (pg_run c [] ops []) = [0; 1; 0]
+  /\ map o_evs (pg_run c [] ops []) =
+     [[mkEv KBegin 1 0; mkEv KRollback 1 0]; [mkEv KBegin 2 0]; [mkEv KCommit 2 0]].
+Proof. vm_compute. repeat split. Qed.
+
+(* K-C13-dumpswallow, one fault (the 12th driver call = the fetch of the second row of the dump):
+   Dump of a, ab delivers a only and reports nothing *)
+Lemma refuted_dumpswallow_lemma :
+  exists c init ops orc,
+    dsw_hit (pg_checks c init ops orc) = true
+    /\ sticky_hit (pg_checks c init ops orc) = false
+    /\ forallb k_fault (pg_checks c init ops orc) = false
+    /\ map o_res (pg_run c init ops orc) = [POk; POk; PRows [(s2b "a", s2b "1")]]
+    /\ map o_res (pg_run c init ops []) = [POk; POk; PRows [(s2b "a", s2b "1"); (s2b "ab", s2b "2")]].
+Proof.
+  exists wit_user, [], [PPut (s2b "a") (s2b "1"); PPut (s2b "ab") (s2b "2"); PDump (s2b "a")],
+         [false; false; false; false; false; false; false; false; false; false; false; true].
+  vm_compute. repeat split.
+Qed.
+
+(* the seeded change C13-m3 would break this: the Dump query fails inside an explicit transaction;
+   Dump rolls back its OWN transaction, the explicit one survives and commits both writes *)
+Lemma dump_fault_in_tx_lemma :
+  let ops := [PStart; PPut (s2b "a") (s2b "1"); PDump (s2b "a"); PPut (s2b "b") (s2b "1"); PStop] in
+  let orc := [false; false; false; true] in
+  c13_full (pg_checks wit_user [] ops orc) = true
+  /\ map o_res (pg_run wit_user [] ops orc) = [POk; POk; PErr EFault; POk; POk]
+  /\ map o_open (pg_run wit_user [] ops orc) = [1; 1; 1; 1; 0]
+  /\ o_comm (last (pg_run wit_user [] ops orc) (mkPobs POk 0 [] [])) =
+     [(32 :: s2b "s.a", s2b "1"); (32 :: s2b "s.b", s2b "1")].
 Proof. vm_compute. repeat split. Qed.
